@@ -232,3 +232,22 @@ pub proof fn lemma_other_ip_refused(s: TS, ip: IpAddr, other: IpAddr, x: u32)
     ensures !(H(ip, x) == H(other, s.curr) || H(ip, x) == H(other, s.last)) // @C06.never_accepted_from_other_ip
 {}
 
+
+// ---------- Token construction from wire bytes ----------
+//@begin type src/info_hash.rs - struct LengthError
+pub struct LengthError;
+//@end
+impl Token {
+    // proved-by: kx/token_new_len (accepts exactly 20 bytes and keeps them)
+    #[verifier::external_body]
+    pub fn new(bytes: &[u8]) -> (r: Result<Self, LengthError>)
+        ensures r is Ok <==> bytes@.len() == 20, r is Ok ==> r->Ok_0.token@ == bytes@
+    { unimplemented!() }
+}
+impl AsRef<[u8]> for Token {
+//@begin fn src/token.rs impl:AsRef<[u8]>@for@Token as_ref
+    fn as_ref(&self) -> (r: &[u8]) ensures r@ == self.token@ {
+        &self.token
+    }
+//@end
+}
